@@ -31,7 +31,7 @@ TInit ==
                   ELSE <<>>
         /\ model = pre.model /\ ng = pre.ng /\ nops = IF pre.exists THEN 1 ELSE 0
         /\ ordered = pre.ordered
-  /\ dirs = {} /\ mem = <<>> /\ plan = <<>> /\ opk = "none" /\ pending = <<>>
+  /\ dirs = {} /\ mem = <<>> /\ plan = <<>> /\ opk = "none" /\ arg = <<>> /\ pending = <<>>
   /\ calls = 0 /\ faultAt = 0 /\ touched = FALSE /\ last = "none" /\ badOpen = FALSE /\ early = FALSE
 
 TBegin ==
@@ -57,7 +57,7 @@ TRemove == IsEvent("remove") /\ DoRemove /\ RemoveSet = SeqToSet(Ev.ps)
 (* an I/O failure observed in the trace: the pending countable call did not happen, the operation raised *)
 TFault ==
   /\ IsEvent("fault") /\ plan # <<>> /\ Countable(Cur.c)
-  /\ opk' = "none" /\ plan' = <<>> /\ mem' = <<>>
+  /\ opk' = "none" /\ arg' = <<>> /\ plan' = <<>> /\ mem' = <<>>
   /\ last' = IF touched THEN "faulted_in_summary" ELSE "faulted_before_summary"
   /\ calls' = calls + 1
   /\ UNCHANGED <<disk, dirs, model, pending, ng, nops, faultAt, touched, badOpen, early, ordered>>
